@@ -30,9 +30,8 @@ def kvec (T : Tables α) (Z k : Int) : Bool :=
     (decide ((T.E_Photo_Partial_Kissel Z.toNat k.toNat).len = T.NE_Photo_Partial_Kissel Z.toNat k.toNat) &&
      decide ((T.Photo_Partial_Kissel Z.toNat k.toNat).len = T.NE_Photo_Partial_Kissel Z.toNat k.toNat)))
 
-/-- `KAllOk T Z` (and `hq` of `CS(b)_Photo_Partial` for the three Q shells, with `<`) -/
-def kall (T : Tables α) (Z : Int) : Bool :=
-  allI 0 31 (fun k => kvec T Z k) && allI 28 31 (fun k => decide (T.Electron_Config_Kissel Z.toNat k.toNat < (1.0e-6 : α)))
+/-- `KAllOk T Z`: `KVecOk` for each of the 31 sub-shells -/
+def kall (T : Tables α) (Z : Int) : Bool := allI 0 31 (fun k => kvec T Z k)
 
 /-- `LGaps T Z`: a missing L2 edge means a missing L1 edge, a missing L3 edge means missing L1 and L2 edges -/
 def lgaps (T : Tables α) (Z : Int) : Bool :=
